@@ -922,3 +922,16 @@ Proof.
   unfold frame2. rewrite (frame_decode_settings lenenc2 payload2 rest Hl2 Hp2 Hr Hv2). rewrite Hd2.
   reflexivity.
 Qed.
+
+(* building does not touch the builder: a second connection gets the first configuration plus the later calls *)
+Theorem build_twice_spec r calls1 calls2 o :
+  Forall (call_ok r) calls1 -> Forall (call_ok r) calls2 ->
+  cfg_opt (fst (build_twice r calls1 calls2)) o = opt_value (map opt_call calls1) o /\
+  cfg_opt (snd (build_twice r calls1 calls2)) o = opt_value (map opt_call (calls1 ++ calls2)) o.
+Proof.
+  intros H1 H2. unfold build_twice, builder_build. cbn [fst snd]. split.
+  - apply builder_config_spec. exact H1.
+  - replace (fold_left (apply_call r) calls2 (builder_config r calls1)) with (builder_config r (calls1 ++ calls2)).
+    + apply builder_config_spec. apply Forall_app. split; assumption.
+    + unfold builder_config. apply fold_left_app.
+Qed.
